@@ -1109,6 +1109,8 @@ def _status_predicates(check, R):
     cts = _S.result_ctors(prog)
     ok = bool(cts)
     for _f, _n, val in cts:
+        if val.get("carried"):
+            continue  # reports the status of the result it was made from: holds if it holds for that one
         v = _S.eval_on_result(prog, tr.body, val)
         ok = ok and isinstance(v, bool) and v == (_S.status_of_result(prog, val) == "Modified")
     check.expect(ok, R, R + "/is_modified", hir.loc(tr.rec), "is_modified <=> the result reports Status::Modified (on every constructor)", "TransformResult::is_modified is not `status == Modified`")
@@ -1196,6 +1198,9 @@ def run(check):
     from ..engine import Only
     check.rule("OP-CONFIG", "plus_operator / tpl_operator are filled from a complete scan of the configured entries for an operator entry with the documented source name, and *_is_enabled() report exactly that: an enabled operation is never left uninstrumented because of the order or the company of its configuration entry")
     check.guarded("OP-CONFIG", lambda c: _c05.rule_op_gates(Only(c, "OP-GATE", "OP-CONFIG", ("/config/", "_is_enabled", "/FLOOR/CsiMethods literals"))))
+    check.rule("METHOD-LOOKUP", "a configured method is found whatever else the configuration lists: CsiMethods::new keeps the complete configured list and CsiMethods::get answers with the first non-operator entry whose source name is the name asked for, by a scan that looks at every entry (a lookup that assumes an order the table does not have, or stops early, leaves every call of some configured method without its hook)")
+    check.guarded("METHOD-LOOKUP", lambda c: _c05.rule_method_gates(Only(c, "METHOD-GATE", "METHOD-LOOKUP", ("/get",))))
+    check.guarded("METHOD-LOOKUP", lambda c: _c05.rule_config_plumbing(Only(c, "CONFIG-PLUMBING", "METHOD-LOOKUP", ("/complete-list",))))
     check.guarded("SNAPSHOT-ORDER", __import__('iast.statusrules', fromlist=['x']).rule_snapshot_order)
     return {
         "explanation": "Static traversal analysis over the typed HIR of the rewriter: all structural paths of every visitor override are enumerated and each must visit every expression-bearing child of its node (slots computed from the compiled swc_ecma_ast ADT graph) unless the path's conditions match a documented exclusion; plus dispatch/gating of the five transforms, block driver, arrow-body normalisation and receiver table.",
